@@ -20,7 +20,9 @@ EXPLANATION = (
     "answered 400 and CannotDeleteParentResourceProvider 409. The forest "
     "invariant over histories and the correctness of get_subtree are not "
     "decided.")
-ASSUMPTIONS = ["get_subtree returns the provider and all its descendants"]
+ASSUMPTIONS = ["get_subtree returns the provider and all its descendants",
+               "provider_ids_from_uuid never reports a provider without a "
+               "root (root_provider_id is populated for every row)"]
 
 RPM = 'placement.objects.resource_provider'
 OAE = 'placement.exception.ObjectActionError'
@@ -113,13 +115,16 @@ def _update_paths(ctx, R, u, guards, lookups, mine, parent, puuid):
         cls[k].append(p)
         info[id(p)] = (pv, rv)
     # which side of "a parent was given" the path is on
+    def _is_none(a, name):
+        return isinstance(a, ast.Compare) and isinstance(
+            a.ops[0], ast.Is) and _nows(a.comparators[0]) == 'None' and \
+            _nows(a.left) == name
+
     def given(p):
-        for t, pol in p.cond_srcs():
-            t = t.replace(' ', '')
-            if t == '%sisnotNone' % puuid:
-                return pol
-            if t == '%sisNone' % puuid:
-                return not pol
+        if pathval.holds(p, lambda a, pol: not pol and _is_none(a, puuid)):
+            return True
+        if pathval.holds(p, lambda a, pol: pol and _is_none(a, puuid)):
+            return False
         return None
     sides = all(given(p) is True for p in cls['re']) and all(
         given(p) is False for p in cls['un'])
@@ -196,8 +201,8 @@ def _update_paths(ctx, R, u, guards, lookups, mine, parent, puuid):
         node = info[id(cls['un'][0])][idx][0] if cls['un'] else None
         bad = []
         for p in cls['un']:
-            had = any(t.replace(' ', '') == '%s.parent_idisnotNone' % mine
-                      and pol for t, pol in p.cond_srcs())
+            had = pathval.holds(p, lambda a, pol: not pol and _is_none(
+                a, '%s.parent_id' % mine))
             if not (had and passed(p, inner)):
                 bad.append(p)
         R.ob('R9.1', 'update:unparent-gated@%s' % lab,
@@ -257,6 +262,135 @@ def _update_paths(ctx, R, u, guards, lookups, mine, parent, puuid):
              len(cls['re']), len(cls['un'])), func=u)
 
 
+def _create_paths(ctx, R, f):
+    """The create rules, decided per path through _create_in_db."""
+    from psa import pathval
+    prog = ctx.prog
+    lookups = [s.node for s in ctx.cg.calls_in(f)
+               if any(x.qbase == IDS for x in s.callees)]
+    guards = oae_ifs(ctx, f)
+    tests = [src(x.test).replace(' ', '') for x in guards]
+    if len(lookups) != 1 or not isinstance(C.stmt_of(lookups[0]),
+                                           ast.Assign):
+        R.ob('R9.1', 'create:parent-lookup', False,
+             'one provider_ids_from_uuid lookup', len(lookups), func=f)
+        return
+    lst = C.stmt_of(lookups[0])
+    pids = lst.targets[0].id if isinstance(lst.targets[0], ast.Name) \
+        else None
+    puuid = src(lookups[0].args[1]) if len(lookups[0].args) > 1 else None
+    paths = [p for p in pathval.paths_of(
+        f, keep=lambda v: v is lookups[0]) if p.end != 'raise']
+
+    def _is_none(a, name):
+        return isinstance(a, ast.Compare) and isinstance(
+            a.ops[0], ast.Is) and _nows(a.comparators[0]) == 'None' and \
+            _nows(a.left) == name
+
+    child, top, other = [], [], []
+    info = {}
+    for p in paths:
+        pv = p.stored(_key_store('parent_provider_id', f))
+        rv = p.stored(_key_store('root_provider_id', f))
+        own = p.stored(lambda tgt, _s: isinstance(tgt, ast.Attribute)
+                       and tgt.attr == 'root_provider_id' and isinstance(
+                           tgt.value, ast.Name) and tgt.value.id !=
+                       f.params[0])
+        info[id(p)] = (pv, rv, own)
+        if pv is not None and rv is not None and own is None:
+            child.append(p)
+        elif pv is None and rv is None and own is not None:
+            top.append(p)
+        elif pv is not None and rv is not None and pathval.holds(
+                p, lambda a, pol: pol and _is_none(a, '%s.root_id' % pids)):
+            # the looked-up parent has no root: not a state the lookup
+            # reports (ASSUMPTIONS)
+            pass
+        else:
+            other.append(p)
+    R.ob('R9.1', 'create:stores', bool(child) and bool(top) and not other,
+         'every path either stores parent_provider_id and root_provider_id '
+         'from the request\'s parent, or makes the new provider its own '
+         'root', 'paths: %d with parent, %d top-level, %d other' % (
+             len(child), len(top), len(other)), func=f)
+    g_none = [x for x in guards if src(x.test).replace(' ', '') ==
+              '%sisNone' % pids]
+    g_self = [x for x in guards if src(x.test).replace(' ', '') in (
+        '%s==self.uuid' % puuid, 'self.uuid==%s' % puuid)]
+
+    def passed(p, gs):
+        return any(p.took(g) is not None for g in gs)
+    for lab, idx in (("updates['parent_provider_id']", 0),
+                     ("updates['root_provider_id']", 1)):
+        node = info[id(child[0])][idx][0] if child else None
+        R.ob('R9.1', 'create:unknown-parent-rejected@%s' % lab,
+             bool(g_none) and bool(child) and all(
+                 passed(p, g_none) for p in child),
+             'the parent lookup returning None raises before the link '
+             'is stored (on every path that stores it)', tests, func=f,
+             node=node)
+        R.ob('R9.1', 'create:self-parent-rejected@%s' % lab,
+             bool(g_self) and bool(child) and all(
+                 passed(p, g_self) for p in child),
+             'parent == self raises before the link is stored (on every '
+             'path that stores it)', tests, func=f, node=node)
+    pvs = sorted({_nows(info[id(p)][0][1]) for p in child})
+    rvs = sorted({_nows(info[id(p)][1][1]) for p in child})
+    R.ob('R9.2', 'create:parent-id', pvs == ['%s.id' % pids],
+         'parent_provider_id = <looked-up parent>.id', pvs, func=f,
+         node=info[id(child[0])][0][0] if child else None)
+    R.ob('R9.2', 'create:root-is-parents-root', rvs == ['%s.root_id' % pids],
+         'root_provider_id = <looked-up parent>.root_id', rvs, func=f,
+         node=info[id(child[0])][1][0] if child else None)
+    # what is looked up is the parent the request names: an expression over
+    # 'parent_provider_uuid', here or - when it arrives as a parameter - at
+    # every call site
+    arg = resolve(f, lookups[0].args[1]) if len(lookups[0].args) > 1 \
+        else None
+    names_parent = arg is not None and 'parent_provider_uuid' in src(arg)
+    found = src(arg) if arg is not None else None
+    if not names_parent and isinstance(arg, ast.Name) and \
+            arg.id in f.params:
+        sites = [(g_, c) for g_ in prog.funcs
+                 for c in C.calls_to(ctx, g_, f.qbase)]
+        vals = [C.arg_for_param(c, f, arg.id) for _g, c in sites]
+        names_parent = bool(vals) and all(
+            v is not None and 'parent_provider_uuid' in src(v)
+            for v in vals)
+        found = [v is not None and src(v) for v in vals]
+    R.ob('R9.2', 'create:lookup-by-request-parent', names_parent,
+         'the parent is looked up by the requested parent uuid', found,
+         func=f, node=lookups[0])
+    # top level: root = own id, and exactly when no parent was named
+    oko = bool(top) and bool(child)
+    why = []
+    for p in top:
+        st, val = info[id(p)][2]
+        tgt = [x_ for s_, _t, x_, _v in p.stores if s_ is st][-1]
+        selfid = val is not None and _nows(val) == '%s.id' % _nows(tgt.value)
+        none_given = pathval.holds(
+            p, lambda a, pol: pol and _is_none(a, puuid))
+        # the object is added to the session after the store
+        after = p.stmts[[i for i, x in enumerate(p.stmts) if x is st][-1]:]
+        added = any(isinstance(n, ast.Call) and isinstance(
+            n.func, ast.Attribute) and n.func.attr == 'add'
+            for x in after for n in ast.walk(x) if not isinstance(
+                x, (ast.If, ast.For, ast.While, ast.Try, ast.With)))
+        if not (selfid and none_given and added):
+            oko = False
+            why.append('%s; no parent named: %s; added after: %s' % (
+                src(st), none_given, added))
+    for p in child:
+        if not pathval.holds(p, lambda a, pol: not pol and _is_none(
+                a, puuid)):
+            oko = False
+            why.append('parent link stored without testing %s' % puuid)
+    R.ob('R9.2', 'create:top-level-root-is-self', oko,
+         'a provider created without parent gets its own id as root, in the '
+         'same transaction; one created with a parent does not',
+         why[:3] or '%d top-level path(s)' % len(top), func=f)
+
+
 def run(ctx, R):
     prog = ctx.prog
     # ------------------------------------------------------------ create
@@ -265,78 +399,7 @@ def run(ctx, R):
     R.ob('R9.1', 'create:writer-scope', ctx.effects.scope_kind(f) == 'writer',
          '_create_in_db is one writer transaction', '', func=f,
          nontrivial=False)
-    pstores = dict_stores(f, 'parent_provider_id')
-    rstores = dict_stores(f, 'root_provider_id')
-    ok = len(pstores) == 1 and len(rstores) == 1
-    R.ob('R9.1', 'create:stores', ok,
-         'one store each of parent_provider_id and root_provider_id',
-         '%d/%d' % (len(pstores), len(rstores)), func=f)
-    lookups = [s.node for s in ctx.cg.calls_in(f)
-               if any(x.qbase == IDS for x in s.callees)]
-    guards = oae_ifs(ctx, f)
-    tests = [src(x.test).replace(' ', '') for x in guards]
-    if ok and len(lookups) == 1:
-        lst = C.stmt_of(lookups[0])
-        pids = lst.targets[0].id if isinstance(lst, ast.Assign) else None
-        puuid = src(lookups[0].args[1]) if len(lookups[0].args) > 1 else None
-        g_none = [x for x in guards if src(x.test).replace(' ', '') ==
-                  '%sisNone' % pids]
-        g_self = [x for x in guards if src(x.test).replace(' ', '') in (
-            '%s==self.uuid' % puuid, 'self.uuid==%s' % puuid)]
-        for st in pstores + rstores:
-            R.ob('R9.1', 'create:unknown-parent-rejected@%s' % src(
-                st.targets[0]), bool(g_none) and g.dominates(g_none[0], st),
-                'the parent lookup returning None raises before the link '
-                'is stored', tests, func=f, node=st)
-            R.ob('R9.1', 'create:self-parent-rejected@%s' % src(
-                st.targets[0]), bool(g_self) and g.dominates(g_self[0], st),
-                'parent == self raises before the link is stored', tests,
-                func=f, node=st)
-        pv = src(resolve(f, pstores[0].value))
-        rv = src(resolve(f, rstores[0].value))
-        R.ob('R9.2', 'create:parent-id', pv == '%s.id' % pids,
-             'parent_provider_id = <looked-up parent>.id', pv, func=f,
-             node=pstores[0])
-        R.ob('R9.2', 'create:root-is-parents-root', rv == '%s.root_id' % pids,
-             'root_provider_id = <looked-up parent>.root_id', rv, func=f,
-             node=rstores[0])
-        R.ob('R9.2', 'create:lookup-by-request-parent',
-             puuid is not None and 'parent_provider_uuid' in src(
-                 resolve(f, lookups[0].args[1])),
-             'the parent is looked up by the requested parent uuid',
-             src(resolve(f, lookups[0].args[1])), func=f, node=lookups[0])
-    else:
-        R.ob('R9.1', 'create:parent-lookup', False,
-             'one provider_ids_from_uuid lookup', len(lookups), func=f)
-    # top level: root = own id
-    own = [n for n in own_nodes(f.node) if isinstance(n, ast.Assign)
-           and any(isinstance(t, ast.Attribute) and t.attr ==
-                   'root_provider_id' for t in n.targets)]
-    oko = False
-    why = '%d attribute stores' % len(own)
-    if len(own) == 1:
-        t = own[0].targets[0]
-        ifs = C.guarding_ifs(own[0], f.node)
-        cond = src(ifs[0][0].test).replace(' ', '') if ifs else ''
-        rname = src(rstores[0].value) if rstores else 'root_id'
-        oko = src(own[0].value) == '%s.id' % src(t.value) and len(ifs) == 1 \
-            and cond == '%sisNone' % rname and ifs[0][1] == 'body'
-        why = '%s under %s' % (src(own[0]), cond)
-        # the flag name is None unless a parent was given
-        inits = [n for n in own_nodes(f.node) if isinstance(n, ast.Assign)
-                 and any(isinstance(x, ast.Name) and x.id == rname
-                         for x in n.targets)]
-        oko = oko and len(inits) == 2 and any(
-            isinstance(i.value, ast.Constant) and i.value.value is None
-            for i in inits)
-        # the object is added/flushed after the store
-        adds = [n for n in own_nodes_of(ifs[0][0]) if isinstance(n, ast.Call)
-                and isinstance(n.func, ast.Attribute)
-                and n.func.attr == 'add'] if ifs else []
-        oko = oko and bool(adds)
-    R.ob('R9.2', 'create:top-level-root-is-self', oko,
-         'a provider created without parent gets its own id as root, in the '
-         'same transaction', why, func=f)
+    _create_paths(ctx, R, f)
 
     # ------------------------------------------------------------ update
     u = prog.func(RPM + ':ResourceProvider._update_in_db')
@@ -490,15 +553,23 @@ def r97(ctx, R):
     # (2) every member with a parent is filed under that parent
     ok2 = False
     why = 'no grouping loop'
+    # the map may be built under another local that is then bound to the
+    # parameter
+    maps = {mp} | {n.value.id for n in own_nodes(f.node)
+                   if isinstance(n, ast.Assign) and isinstance(
+                       n.value, ast.Name) and any(
+                           isinstance(t, ast.Name) and t.id == mp
+                           for t in n.targets)}
     for lp in [x for x in own_nodes(f.node) if isinstance(x, ast.For)]:
-        if tree_var is None or src(lp.iter) != tree_var:
+        if not ((tree_var is not None and src(lp.iter) == tree_var) or (
+                len(calls) == 1 and lp.iter is calls[0])):
             continue
         v = src(lp.target)
         adds = [c for c in own_nodes_of(lp) if isinstance(c, ast.Call)
                 and isinstance(c.func, ast.Attribute)
                 and c.func.attr in ('add', 'append')
                 and isinstance(c.func.value, ast.Subscript)
-                and src(c.func.value.value) == mp
+                and src(c.func.value.value) in maps
                 and src(c.func.value.slice) == '%s.parent_provider_uuid' % v
                 and c.args and src(c.args[0]) == v]
         if len(adds) == 1:
